@@ -96,8 +96,12 @@ class Index:
             # One of the subtrees is identical to the whole tree so just keep all the bboxes
             self.bboxes = bboxes
         else:
-            # Make four subtrees, one for each quadrant
-            self.subtrees = [Index(sub) for sub in sub_bboxes]
+            # Make a subtree for each distinct quadrant; quadrants holding the same boxes share one
+            distinct = []
+            for sub in sub_bboxes:
+                if sub not in distinct:
+                    distinct.append(sub)
+            self.subtrees = [Index(sub) for sub in distinct]
 
     def intersection(self, bbox):
         ''' Get a set of IDs for a given bounding box
